@@ -7,7 +7,7 @@ import (
 
 // C06 — natural-language text survives both codecs byte for byte.
 
-var vpC06Props = []string{"name", "summary", "content", "preferredUsername", "source.content"}
+var vpC06Props = []string{"name", "summary", "content", "preferredUsername", "source.content", "source.content-without-mediaType", "link.name"}
 
 // vpC06Value builds the value holding text t at property p in form f
 // (0 single untagged, 1 single tagged, 2 two-language map with t as the first text, 3 map with t as the second text).
@@ -34,6 +34,16 @@ func vpC06Value(p, f int, t []byte) (Item, func(Item) NaturalLanguageValues) {
 		return &Actor{ID: "https://h.ex/i", Type: PersonType, PreferredUsername: n}, func(y Item) NaturalLanguageValues {
 			a, _ := ToActor(y)
 			return a.PreferredUsername
+		}
+	case 5:
+		return &Object{ID: "https://h.ex/i", Type: NoteType, Source: Source{Content: n}}, func(y Item) NaturalLanguageValues { o, _ := ToObject(y); return o.Source.Content }
+	case 6:
+		return &Link{ID: "https://h.ex/i", Type: MentionType, Href: "https://h.ex/l", Name: n}, func(y Item) NaturalLanguageValues {
+			l, _ := ToLink(y)
+			if l == nil {
+				return nil
+			}
+			return l.Name
 		}
 	default:
 		return &Object{ID: "https://h.ex/i", Type: NoteType, Source: Source{Content: n, MediaType: "text/x"}}, func(y Item) NaturalLanguageValues { o, _ := ToObject(y); return o.Source.Content }
